@@ -158,5 +158,80 @@ theorem timeOfDay_parts (days h mi s ns : Int) (hh : 0 ≤ h ∧ h ≤ 23) (hmi 
   unfold hour minute second
   rw [hsec]; omega
 
+theorem lastDay_ge (y m : Int) : 28 ≤ lastDay y m ∧ lastDay y m ≤ 31 := by
+  unfold lastDay; split <;> (try split) <;> omega
+
+/-- every valid date has a valid next date, whose day number is one more -/
+theorem exists_next (y m d : Int) (hv : ValidDate y m d) :
+    ∃ y' m' d', ValidDate y' m' d' ∧ daysFromCivil y' m' d' = daysFromCivil y m d + 1 := by
+  obtain ⟨hm1, hm2, hd1, hd2⟩ := hv
+  by_cases hlast : d < lastDay y m
+  · exact ⟨y, m, d + 1, ⟨hm1, hm2, by omega, by omega⟩, daysFromCivil_next_day y m d⟩
+  · have hd : d = lastDay y m := by omega
+    by_cases hdec : m = 12
+    · subst hdec
+      have h31 : lastDay y 12 = 31 := by unfold lastDay; simp
+      refine ⟨y + 1, 1, 1, ⟨by omega, by omega, by omega, ?_⟩, ?_⟩
+      · have := lastDay_ge (y + 1) 1; omega
+      · rw [daysFromCivil_next_year, hd, h31]
+    · refine ⟨y, m + 1, 1, ⟨by omega, by omega, by omega, ?_⟩, ?_⟩
+      · have := lastDay_ge y (m + 1); omega
+      · rw [daysFromCivil_next_month y m ⟨hm1, by omega⟩, hd]
+
+/-- … and a valid previous date, whose day number is one less -/
+theorem exists_prev (y m d : Int) (hv : ValidDate y m d) :
+    ∃ y' m' d', ValidDate y' m' d' ∧ daysFromCivil y' m' d' = daysFromCivil y m d - 1 := by
+  obtain ⟨hm1, hm2, hd1, hd2⟩ := hv
+  by_cases hfirst : 1 < d
+  · refine ⟨y, m, d - 1, ⟨hm1, hm2, by omega, by omega⟩, ?_⟩
+    have := daysFromCivil_next_day y m (d - 1)
+    rw [show d - 1 + 1 = d by omega] at this; omega
+  · have hd : d = 1 := by omega
+    subst hd
+    by_cases hjan : m = 1
+    · subst hjan
+      have h31 : lastDay (y - 1) 12 = 31 := by unfold lastDay; simp
+      refine ⟨y - 1, 12, 31, ⟨by omega, by omega, by omega, by omega⟩, ?_⟩
+      have := daysFromCivil_next_year (y - 1)
+      rw [show y - 1 + 1 = y by omega] at this; omega
+    · refine ⟨y, m - 1, lastDay y (m - 1), ⟨by omega, by omega, ?_, Int.le_refl _⟩, ?_⟩
+      · have := lastDay_ge y (m - 1); omega
+      · have := daysFromCivil_next_month y (m - 1) ⟨by omega, by omega⟩
+        rw [show m - 1 + 1 = m by omega] at this; omega
+
+theorem exists_date_nat : ∀ k : Nat, (∃ y m d, ValidDate y m d ∧ daysFromCivil y m d = (k : Int)) ∧
+    (∃ y m d, ValidDate y m d ∧ daysFromCivil y m d = -(k : Int))
+  | 0 => ⟨⟨1970, 1, 1, by decide, by decide⟩, ⟨1970, 1, 1, by decide, by decide⟩⟩
+  | k + 1 => by
+    obtain ⟨⟨y, m, d, hv, hn⟩, ⟨y2, m2, d2, hv2, hn2⟩⟩ := exists_date_nat k
+    obtain ⟨y', m', d', hv', hn'⟩ := exists_next y m d hv
+    obtain ⟨y3, m3, d3, hv3, hn3⟩ := exists_prev y2 m2 d2 hv2
+    exact ⟨⟨y', m', d', hv', by rw [hn', hn]; push_cast; rfl⟩, ⟨y3, m3, d3, hv3, by rw [hn3, hn2]; push_cast; omega⟩⟩
+
+/-- every day number is the day number of a date of the calendar -/
+theorem exists_date (n : Int) : ∃ y m d, ValidDate y m d ∧ daysFromCivil y m d = n := by
+  by_cases h : 0 ≤ n
+  · have := (exists_date_nat n.toNat).1
+    rw [Int.toNat_of_nonneg h] at this; exact this
+  · have := (exists_date_nat (-n).toNat).2
+    rw [Int.toNat_of_nonneg (by omega)] at this
+    rw [show - -n = n by omega] at this; exact this
+
+/-- `civil` of ANY day number is a date of the calendar, and it is the date with that day number -/
+theorem civil_valid_and_inverse (n : Int) :
+    ValidDate (civil n).1 (civil n).2.1 (civil n).2.2 ∧
+    daysFromCivil (civil n).1 (civil n).2.1 (civil n).2.2 = n := by
+  obtain ⟨y, m, d, hv, hn⟩ := exists_date n
+  have := civil_daysFromCivil y m d ⟨hv.1, hv.2.1⟩ ⟨hv.2.2.1, hv.2.2.2⟩
+  rw [hn] at this
+  rw [this]; exact ⟨hv, hn⟩
+
+/-- day numbers identify dates: two valid dates with the same day number are the same date -/
+theorem daysFromCivil_injective (y m d y' m' d' : Int) (hv : ValidDate y m d) (hv' : ValidDate y' m' d')
+    (h : daysFromCivil y m d = daysFromCivil y' m' d') : (y, m, d) = (y', m', d') := by
+  have h1 := civil_daysFromCivil y m d ⟨hv.1, hv.2.1⟩ ⟨hv.2.2.1, hv.2.2.2⟩
+  have h2 := civil_daysFromCivil y' m' d' ⟨hv'.1, hv'.2.1⟩ ⟨hv'.2.2.1, hv'.2.2.2⟩
+  rw [h] at h1; rw [← h1, h2]
+
 end Time
 end Reval
